@@ -60,12 +60,13 @@ class CRef(V):
 
 class FRef(V):
     """function value; `closure` = frame oid for nested defs / lambdas"""
-    __slots__ = ('fi', 'closure', 'node')
+    __slots__ = ('fi', 'closure', 'node', 'raw')
 
-    def __init__(self, fi, closure=None, node=None):
+    def __init__(self, fi, closure=None, node=None, raw=False):
         self.fi = fi
         self.closure = closure
         self.node = node if node is not None else fi.node
+        self.raw = raw      # the function under its decorators
 
     def __eq__(self, o):
         return isinstance(o, FRef) and o.node is self.node and \
